@@ -792,7 +792,25 @@ func (r *Run) outKind(j *JobRec, p, name, content string) (string, bool) {
 		r.ExtFiles[ep] = content
 		return ep
 	}
-	switch hash64(r.FCfg.Salt, j.Key(), j.Phase, name, "outkind") % 14 {
+	switch hash64(r.FCfg.Salt, j.Key(), j.Phase, name, "outkind") % 15 {
+	case 6:
+		// a chain of relative links through another directory: each hop has to be
+		// resolved against the directory of the link it was read from
+		sub := path.Join(path.Dir(p), "links_"+path.Base(p))
+		if vos.MkdirAll(sub, 0755) != nil {
+			return p, true
+		}
+		j.check()
+		if !writeReal(p + ".real") {
+			return p, true
+		}
+		vos.Symlink(path.Join("..", path.Base(p)+".real"), path.Join(sub, "mid"))
+		j.check()
+		vos.Symlink(path.Join(path.Base(sub), "mid"), p)
+		j.check()
+		r.Faults["stage-output-is-symlink-chain-across-directories"]++
+		note(&FileRec{Path: p, Content: content, Kind: "symlink", Target: p + ".real"})
+		return p, true
 	case 0:
 		r.Faults["stage-output-file-never-created"]++
 		note(&FileRec{Path: p, Kind: "missing"})
